@@ -2,6 +2,7 @@ package main
 
 import (
 	"fmt"
+	"os"
 	"sort"
 	"strings"
 	"time"
@@ -138,3 +139,5 @@ func vals(vs []resp.Value) []string {
 var _ = verdict.Root
 
 func sortStrings(s []string) { sort.Strings(s) }
+
+func os_RemoveAll(p string) { os.RemoveAll(p) }
